@@ -110,6 +110,7 @@ def run(rep, tier, seed):
             loc = (it["raw"].get("msg") or "").split("|")[0]
             rep.disagree("crash %s %s at %s" % (it["tag"], out["how"], loc),
                          {"src": it["src"][:3000], "got": {k: it["raw"].get(k) for k in ("how", "msg", "stage")}})
+    at_the_limits(rep, tier)
     rep.notes["non_crash_disagreements_left_to_other_properties"] = len(bad) - ncrash
     rep.notes["non_crash_disagreement_tags"] = sorted({it["tag"] + " " + progs.outcome_delta(v["exp"], out)
                                                        for it, out, v in bad if out["how"] not in CRASH})[:60]
@@ -128,6 +129,23 @@ def run(rep, tier, seed):
     rep.cov["exhaustive"] = False
     for it in items[:1]:
         rep.sample({"src": it["src"], "out": it["out"]})
+
+
+def at_the_limits(rep, tier):
+    """programs that sit exactly on, just under and just over the limits of the instruction format (C14's scenarios:
+    locals, call arguments, captured variables, constants, jump distances): whatever the front end decides, nothing
+    crashes"""
+    from .c14 import limit_scenarios
+    scs = limit_scenarios(tier)
+    cases = [{"id": "lim%d" % k, "src": sc[4], "fuel": 20000000} for k, sc in enumerate(scs)]
+    res = core.run_cases(cases, deadline_ms=60000)
+    for c, sc in zip(cases, scs):
+        out = core.norm_out(res[c["id"]])
+        rep.cov["evaluations"] += 1
+        if out["how"] in CRASH:
+            loc = (res[c["id"]].get("msg") or "").split("|")[0]
+            rep.disagree("crash at-the-limit %s %s at %s" % (sc[0].split("~")[0], out["how"], loc),
+                         {"src_head": sc[4][:300], "src_len": len(sc[4]), "got": {k: res[c["id"]].get(k) for k in ("how", "msg", "stage")}})
 
 
 def format_strings(tier):
